@@ -860,7 +860,7 @@ func init() {
 
 // runMergeOutputs (C15, merge part): outputs over awkward strings and names.
 func runMergeOutputs(ctx *core.Ctx, tier string) {
-	strs := []string{`"<>&"`, "\"  \"", `"\"\\\n"`, `"\u001f"`, "\"\U0001F600\"", `"😀"`, `"\ud800"`, `"é"`, `"\/"`}
+	strs := []string{"\"a\u007fb\"", `"\u007f"`, `"<>&"`, "\"  \"", `"\"\\\n"`, `"\u001f"`, "\"\U0001F600\"", `"😀"`, `"\ud800"`, `"é"`, `"\/"`}
 	var vals []*rj.Value
 	for _, s := range strs {
 		v := rj.MustParse(s)
